@@ -1,7 +1,7 @@
 (* C05, proofs part 7: the bump-along marker, removal of ending backtracking (eliminateEndingBacktracking,
    Model/FinalOpt.fo_ee) and the gated reduce in its lite form preserve the meaning: fo_ee keeps the FIRST result
    (rw_hrefines), the reduce and the marker keep every result (rw_refines). *)
-From Verif Require Import Base.Prelude Model.Tree Model.Spec Model.Rewrite Model.ParseLit Model.CharClass Model.Parser
+From Verif Require Import Base.Prelude Gen.ParseLitGen Model.Tree Model.Spec Model.Rewrite Model.ParseLit Model.CharClass Model.Parser
   Model.FinalOpt
   Proofs.SpecProofs Proofs.SpecBoundsProofs Proofs.SpecTermProofs Proofs.RewriteProofs
   Proofs.FinalOptDen Proofs.FinalOptK Proofs.FinalOptLink Proofs.FinalOptLeaf Proofs.FinalOptWalk Proofs.FinalOptAtomic.
@@ -293,5 +293,556 @@ Proof.
       T_Oneloopatomic, T_Notoneloopatomic, T_Setloopatomic in Et. lia.
   - injection H as <- <-. split; [exact Hok|]. split; [apply rw_refines_refl|exact I].
 Qed.
+
+(* ---- helpers for the gated reduce *)
+Lemma clear_I_noop o : useI o = false -> clear_I o = o.
+Proof.
+  unfold useI, pl_bit, clear_I, PL_IgnoreCase. intros H.
+  assert (Z.land o 1 = 0) as Hl by lia.
+  apply Z.bits_inj'. intros i Hi. rewrite Z.ldiff_spec.
+  destruct (Z.eq_dec i 0) as [->|Hne].
+  - assert (Z.testbit o 0 = false) as Hb.
+    { pose proof (Z.land_spec o 1 0) as Hs. rewrite Hl in Hs. cbn in Hs. rewrite andb_true_r in Hs. symmetry. exact Hs. }
+    rewrite Hb. reflexivity.
+  - replace (Z.testbit 1 i) with false; [rewrite andb_true_r; reflexivity|].
+    symmetry. destruct i; try lia; reflexivity.
+Qed.
+
+(* the node reduce() works on: IgnoreCase cleared in the options (tree.go:488-490) *)
+Definition clr (x : rnode) : rnode := set_o x (if n_t x =? T_Ref then n_o x else clear_I (n_o x)).
+
+Lemma clr_same x : fo_wf x = true -> n_t x <> 28 -> clr x = x.
+Proof.
+  intros Hwf H28. unfold clr. destruct (n_t x =? T_Ref) eqn:E; [destruct x; reflexivity|].
+  destruct (wf_flags x Hwf) as (_ & _ & _ & _ & _ & Hci & _).
+  rewrite clear_I_noop by (apply Hci; unfold T_Ref in *; lia). destruct x; reflexivity.
+Qed.
+
+Lemma single_charloop_atomic k o c m n : single e (NCharLoop k LAtomic o c m n).
+Proof. intros s. rewrite fd_den_charloop. unfold sem_charloop. destruct (_ <? m); reflexivity. Qed.
+Lemma single_empty : single e NEmpty.
+Proof. intros s. rewrite fd_den_empty. reflexivity. Qed.
+Lemma single_nothing : single e NNothing.
+Proof. intros s. rewrite fd_den_nothing. reflexivity. Qed.
+Lemma single_multi o str : single e (NMulti o str).
+Proof. intros s. rewrite fd_den_multi. unfold sem_multi. repeat match goal with |- context [if ?c then _ else _] => destruct c end; reflexivity. Qed.
+
+Lemma single_mla t : single e (Rewrite.make_loop_atomic t) \/ Rewrite.make_loop_atomic t = t.
+Proof.
+  destruct t; try (right; reflexivity). cbn [Rewrite.make_loop_atomic].
+  destruct l.
+  - left. apply single_charloop_atomic.
+  - left. destruct (m =? 0); [apply single_empty|]. destruct k; try apply single_charloop_atomic.
+    destruct ((2 <=? m) && (m <=? MULTI_VS_REPEATER_LIMIT)); [apply single_multi | apply single_charloop_atomic].
+  - right. reflexivity.
+Qed.
+
+(* Atomic in front of a node with at most one result is that node *)
+Lemma atomic_single_refines t : single e t -> rw_refines e (NAtomic t) t.
+Proof. intros H. apply refines_den. intros s. rewrite fd_den_atomic. symmetry. apply H. Qed.
+Lemma atomic_atomic_refines t : rw_refines e (NAtomic (NAtomic t)) (NAtomic t).
+Proof. apply atomic_single_refines. apply single_atomic. Qed.
+
+Lemma atomic_mla_refines x : node_ok x -> fo_is_charloop (n_t x) || fo_is_charlazy (n_t x) = true ->
+  rw_refines e (NAtomic (tr x)) (tr (Parser.make_loop_atomic x)).
+Proof.
+  intros Hok Ht. pose proof (mla_hrefines x Hok Ht) as Hh. rewrite (tr_mla x Ht) in *.
+  apply refines_den. intros s. rewrite fd_den_atomic. rewrite hrefines_den in Hh. rewrite (Hh s).
+  destruct (single_mla (tr x)) as [Hs|Heq]; [symmetry; apply Hs|].
+  (* make_loop_atomic left the tree alone: it is an atomic loop already; not for a greedy / lazy loop *)
+  exfalso. unfold fo_is_charloop, fo_is_charlazy, T_Oneloop, T_Notoneloop, T_Setloop, T_Onelazy, T_Notonelazy, T_Setlazy in Ht.
+  assert (Hc : n_t x = 3 \/ n_t x = 4 \/ n_t x = 5 \/ n_t x = 6 \/ n_t x = 7 \/ n_t x = 8) by lia.
+  assert (exists k l, l <> LAtomic /\ lk_of (n_t x) = Some (k, l)) as (k & l & Hl & Hkl).
+  { destruct Hc as [E | [E | [E | [E | [E | E]]]]]; rewrite E; cbn; eexists; eexists; split; try reflexivity; discriminate. }
+  rewrite (tr_charloop sid x k l Hkl) in Heq. cbn [Rewrite.make_loop_atomic] in Heq.
+  destruct l; try contradiction; try discriminate.
+  destruct (n_m x =? 0); [discriminate|]. destruct k; try discriminate.
+  destruct ((2 <=? n_m x) && (n_m x <=? MULTI_VS_REPEATER_LIMIT)); discriminate.
+Qed.
+
+Lemma tr_empty x : n_t x = T_Empty -> tr x = NEmpty.
+Proof. intros H. rewrite tr_unfold. cbv zeta. rewrite H. reflexivity. Qed.
+Lemma tr_nothing x : n_t x = T_Nothing -> tr x = NNothing.
+Proof. intros H. rewrite tr_unfold. cbv zeta. rewrite H. reflexivity. Qed.
+
+Lemma tr_atomicloop_single x : is_atomicloop_family (n_t x) = true -> single e (tr x).
+Proof.
+  unfold is_atomicloop_family, T_Oneloopatomic, T_Notoneloopatomic, T_Setloopatomic. intros H.
+  assert (Hc : n_t x = 43 \/ n_t x = 44 \/ n_t x = 45) by lia.
+  assert (exists k, lk_of (n_t x) = Some (k, LAtomic)) as (k & Hk).
+  { destruct Hc as [E | [E | E]]; rewrite E; cbn; eexists; reflexivity. }
+  rewrite (tr_charloop sid x k LAtomic Hk). apply single_charloop_atomic.
+Qed.
+
+Lemma innermost_spec : forall x, n_t x = T_Atomic -> node_ok x ->
+  let a := fo_innermost_atomic x in
+  n_t a = T_Atomic /\ node_ok a /\ rw_refines e (tr x) (tr a) /\
+  exists child, n_kids a = [child] /\ n_t child <> T_Atomic.
+Proof.
+  induction x as [t o ch m n str st kids IHk] using rnode_ind'. intros Ht Hok. cbn [n_t] in Ht. subst t.
+  destruct (kids_one (RN T_Atomic o ch m n str st kids) ltac:(cbn; unfold T_Atomic; lia) (proj1 Hok)) as [k Hk]. cbn [n_kids] in Hk. subst kids.
+  cbn [fo_innermost_atomic]. destruct (n_t k =? T_Atomic) eqn:Ek.
+  - inversion IHk as [|? ? IH0 _]; subst.
+    assert (Hokk : node_ok k) by (apply (node_ok_kid sets (RN T_Atomic o ch m n str st [k])); [exact Hok | left; reflexivity]).
+    destruct (IH0 ltac:(lia) Hokk) as (Ha & Hoka & Hr & Hc). split; [exact Ha|]. split; [exact Hoka|]. split; [|exact Hc].
+    rewrite (tr_atomic sid (RN T_Atomic o ch m n str st [k]) k) by reflexivity.
+    eapply rw_refines_trans; [apply atomic_refines; exact Hr|].
+    rewrite (tr_atomic sid (fo_innermost_atomic k)) with (k := match n_kids (fo_innermost_atomic k) with c :: _ => c | [] => k end).
+    + apply atomic_atomic_refines.
+    + exact Ha.
+    + destruct Hc as (c & -> & _). reflexivity.
+  - split; [reflexivity|]. split; [exact Hok|]. split; [apply rw_refines_refl|]. exists k. split; [reflexivity|lia].
+Qed.
+
+(* ---- eliminateEndingBacktracking keeps the first result; the gated reduce (lite) keeps every result *)
+Section EE.
+Variable g strict : Z.
+Hypothesis Hg8 : fo_gate g 8 = true.
+Hypothesis Hg16 : fo_gate g 16 = true.
+Hypothesis Hs3 : Z.testbit strict 3 = true.
+
+Definition ee_spec (node node' : rnode) : Prop :=
+  node_ok node' /\ rw_hrefines e (tr node) (tr node') /\
+  ((n_t node = T_Atomic \/ n_t node = T_PosLook \/ n_t node = T_NegLook) -> n_t node' = n_t node /\ n_o node' = n_o node /\ length (n_kids node') = length (n_kids node)).
+Definition red_spec (x x' : rnode) : Prop := node_ok x' /\ rw_refines e (tr x) (tr x').
+
+Lemma node_ok_clr x : node_ok x -> node_ok (clr x) /\ rw_refines e (tr x) (tr (clr x)).
+Proof.
+  intros Hok. destruct (Z.eq_dec (n_t x) 28) as [E|E].
+  - (* a capture: the options are not looked at *)
+    destruct (kids_one x ltac:(lia) (proj1 Hok)) as [k Hk]. unfold clr.
+    replace (n_t x =? T_Ref) with false by (unfold T_Ref; lia).
+    destruct x as [t o ch m n str st kids]. cbn [n_t n_kids n_o set_o] in *. subst t kids. split.
+    + destruct Hok as [Hwf Hs]. split; [|exact Hs]. rewrite fo_wf_unfold in Hwf |- *. exact Hwf.
+    + rewrite (tr_capture sid (RN 28 o ch m n str st [k]) k), (tr_capture sid (RN 28 (clear_I o) ch m n str st [k]) k) by reflexivity.
+      cbn [n_o n_m n_n]. apply capture_refines. apply rw_refines_refl.
+  - rewrite (clr_same x (proj1 Hok) E). split; [exact Hok | apply rw_refines_refl].
+Qed.
+
+Lemma fo_loop_last_none nd k : fo_loop_last strict nd k = Ok None.
+Proof. unfold fo_loop_last. rewrite Hs3. reflexivity. Qed.
+
+Lemma set_mn_fields x m n : n_t (set_mn x m n) = n_t x /\ n_o (set_mn x m n) = n_o x /\ n_m (set_mn x m n) = m /\
+  n_n (set_mn x m n) = n /\ n_kids (set_mn x m n) = n_kids x /\ n_set (set_mn x m n) = n_set x /\ n_str (set_mn x m n) = n_str x.
+Proof. destruct x; repeat split; reflexivity. Qed.
+
+Lemma Forall2_hrefines_alt o l l' : Forall2 (fun k k' => rw_hrefines e (tr k) (tr k')) l l' ->
+  rw_hrefines e (NAlternate o (map tr l)) (NAlternate o (map tr l')).
+Proof.
+  intros H. apply alt_all_tail. induction H; cbn [map]; constructor; assumption.
+Qed.
+
+Lemma fo_ee_S f par node :
+  fo_ee cat_in isw isew (S f) g strict true par node =
+  if fo_gate g 2 then Ok node
+  else
+    let t := n_t node in
+    let first_kid (pa : bool) (nd : rnode) : res rnode :=
+      match n_kids nd with
+      | [] => Crash 53
+      | k :: ks => do k' <- fo_ee cat_in isw isew f g strict true pa k ; Ok (set_kids nd (k' :: ks))
+      end in
+    let as_loop (nd : rnode) : res rnode :=
+      if n_n nd =? 1 then first_kid false nd
+      else
+        do r <- fo_loop_last strict nd (fun first lastc =>
+                  do b <- fo_cbma cat_in isw isew f strict lastc first [] false false false ;
+                  if b then (do l' <- fo_ee cat_in isw isew f g strict true false lastc ; Ok (Some l')) else Ok None) ;
+        match r with Some nd' => Ok nd' | None => Ok nd end in
+    if fo_is_charloop t || fo_is_charlazy t then Ok (Parser.make_loop_atomic node)
+    else if (t =? T_Atomic) || (t =? T_PosLook) || (t =? T_NegLook) then first_kid (t =? T_Atomic) node
+    else if (t =? T_Capture) || (t =? T_Concatenate) then
+      if (t =? T_Capture) && negb (n_n node =? -1) then Ok node
+      else
+        match rev (n_kids node) with
+        | [] => Crash 54
+        | ec :: rpre =>
+            let et := n_t ec in
+            if ((et =? T_Alternate) || (et =? T_BackRefCond) || (et =? T_ExprCond) || (et =? T_Loop) || (et =? T_Lazyloop))
+               && negb par then
+              do c1 <- fo_reduce cat_in isw isew f g strict true 0 T_Atomic ec ;
+              do a1 <- fo_reduce cat_in isw isew f g strict true 0 t (RN T_Atomic (n_o ec) 0 0 0 [] None [c1]) ;
+              do a2 <- (if n_t a1 =? T_Atomic then
+                          match n_kids a1 with
+                          | [c] => do c' <- fo_ee cat_in isw isew f g strict true true c ; Ok (set_kids a1 [c'])
+                          | _ => Ok a1
+                          end
+                        else Ok a1) ;
+              Ok (set_kids node (rev (a2 :: rpre)))
+            else
+              do ec' <- fo_ee cat_in isw isew f g strict true false ec ;
+              Ok (set_kids node (rev (ec' :: rpre)))
+        end
+    else if (t =? T_Alternate) || (t =? T_BackRefCond) || (t =? T_ExprCond) then
+      match n_kids node with
+      | [] => Crash 55
+      | k0 :: ks =>
+          do ks' <- fo_map_res (fo_ee cat_in isw isew f g strict true false) ks ;
+          do k0' <- (if t =? T_ExprCond then Ok k0 else fo_ee cat_in isw isew f g strict true false k0) ;
+          Ok (set_kids node (k0' :: ks'))
+      end
+    else if t =? T_Lazyloop then as_loop (set_mn node (n_m node) (n_m node))
+    else if t =? T_Loop then as_loop node
+    else Ok node.
+Proof. reflexivity. Qed.
+
+Lemma fo_reduce_S f mode ptype t o ch m n str st kids :
+  fo_reduce cat_in isw isew (S f) g strict true mode ptype (RN t o ch m n str st kids) =
+  let o1 := if t =? T_Ref then o else clear_I o in
+  let x1 := RN t o1 ch m n str st kids in
+  if t =? T_Alternate then Ok x1
+  else if t =? T_Atomic then
+    let atomic := fo_innermost_atomic x1 in
+    match n_kids atomic with
+    | [] => Crash 22
+    | child :: crest =>
+        let ct := n_t child in
+        let dflt (c : rnode) : res rnode :=
+          do c' <- fo_ee cat_in isw isew f g strict true true c ; Ok (set_kids atomic (c' :: crest)) in
+        if (ct =? T_Empty) || (ct =? T_Nothing) then Ok child
+        else if is_atomicloop_family ct then Ok child
+        else if fo_is_charloop ct || fo_is_charlazy ct then Ok (Parser.make_loop_atomic child)
+        else dflt child
+    end
+  else if (t =? T_PosLook) || (t =? T_NegLook) then
+    do x2 <- fo_ee cat_in isw isew f g strict true false x1 ;
+    match n_kids x2 with
+    | [] => Crash 21
+    | k :: _ => if n_t k =? T_Empty
+                then Ok (RN (if t =? T_PosLook then T_Empty else T_Nothing) o1 ch m n str st [])
+                else Ok x2
+    end
+  else if t =? T_ExprCond then
+    if mode =? 0 then
+      match kids with
+      | [] => Crash 28
+      | c :: r => do c' <- fo_ee cat_in isw isew f g strict true false c ; Ok (set_kids x1 (c' :: r))
+      end
+    else
+      match kids with
+      | [] => Crash 28
+      | c :: r =>
+          if mode =? 2 then
+            do c1 <- fo_ee cat_in isw isew f g strict true false c ;
+            if n_t c1 =? T_Empty then Ok (RN t o1 ch m n str st (mk_node T_Empty o1 :: r))
+            else
+              do c2 <- fo_reduce cat_in isw isew f g strict true 0 T_ExprCond c1 ;
+              do c3 <- fo_ee cat_in isw isew f g strict true false c2 ;
+              Ok (RN t o1 ch m n str st (c3 :: r))
+          else
+            do c' <- fo_ee cat_in isw isew f g strict true false c ; Ok (RN t o1 ch m n str st (c' :: r))
+      end
+  else Ok x1.
+Proof.
+  cbn [fo_reduce]. cbv zeta. rewrite Hg16. cbn [andb].
+  destruct (t =? T_Alternate); [reflexivity|].
+  destruct (t =? T_Atomic).
+  { destruct (n_kids (fo_innermost_atomic (RN t (if t =? T_Ref then o else clear_I o) ch m n str st kids))) as [|child crest]; [reflexivity|].
+    destruct ((n_t child =? T_Empty) || (n_t child =? T_Nothing)); [reflexivity|].
+    destruct (is_atomicloop_family (n_t child)); [reflexivity|].
+    destruct (fo_is_charloop (n_t child) || fo_is_charlazy (n_t child)); [reflexivity|].
+    destruct ((n_t child =? T_Alternate) && negb (useRTL (if t =? T_Ref then o else clear_I o))); [rewrite Hg8; reflexivity | reflexivity]. }
+  destruct ((t =? T_PosLook) || (t =? T_NegLook)); [reflexivity|].
+  destruct (t =? T_ExprCond); [|reflexivity].
+  destruct (mode =? 0); [|reflexivity].
+  destruct kids; reflexivity.
+Qed.
+
+Theorem ee_red_sound : forall f,
+  (forall par node node', fo_ee cat_in isw isew f g strict true par node = Ok node' -> node_ok node -> ee_spec node node') /\
+  (forall mode ptype x x', fo_reduce cat_in isw isew f g strict true mode ptype x = Ok x' -> node_ok x -> red_spec x x').
+Proof.
+  induction f as [|f [IHE IHR]]; [split; intros; discriminate|].
+  assert (HE : forall par node node', fo_ee cat_in isw isew (S f) g strict true par node = Ok node' -> node_ok node -> ee_spec node node').
+  { intros par node node' H Hok. rewrite fo_ee_S in H.
+    destruct (fo_gate g 2); [injection H as <-; split; [exact Hok|]; split; [apply rw_hrefines_refl | intros _; repeat split; reflexivity]|].
+    cbv zeta in H.
+    destruct (fo_is_charloop (n_t node) || fo_is_charlazy (n_t node)) eqn:Ecl.
+    { injection H as <-. split; [apply node_ok_mla; assumption|]. split; [apply mla_hrefines; assumption|].
+      intros Ht. exfalso. unfold fo_is_charloop, fo_is_charlazy, T_Oneloop, T_Notoneloop, T_Setloop, T_Onelazy, T_Notonelazy, T_Setlazy,
+        T_Atomic, T_PosLook, T_NegLook in *. lia. }
+    destruct ((n_t node =? T_Atomic) || (n_t node =? T_PosLook) || (n_t node =? T_NegLook)) eqn:Eapn.
+    { destruct (kids_one node ltac:(unfold T_Atomic, T_PosLook, T_NegLook in *; lia) (proj1 Hok)) as [k Ek]. rewrite Ek in H.
+      destruct (fo_ee cat_in isw isew f g strict true (n_t node =? T_Atomic) k) as [k'| | |] eqn:Eee; cbn [bind] in H; try discriminate.
+      injection H as <-.
+      assert (Hk : node_ok k) by (apply (node_ok_kid sets node); [exact Hok | rewrite Ek; left; reflexivity]).
+      destruct (IHE _ _ _ Eee Hk) as (Hk' & Hh & _).
+      destruct (set_kids_fields node [k']) as (Ht' & Ho' & _ & _ & _ & _ & _ & Hk2).
+      split; [apply node_ok_set_kids; [exact Hok | rewrite Ek; reflexivity | constructor; [exact Hk'|constructor]]|].
+      split; [|intros _; rewrite Ht', Ho', Hk2, Ek; repeat split; reflexivity].
+      destruct (n_t node =? T_Atomic) eqn:Ea.
+      - rewrite (tr_atomic sid node k) by (first [exact Ek | unfold T_Atomic in *; lia]).
+        rewrite (tr_atomic sid (set_kids node [k']) k') by (first [exact Hk2 | rewrite Ht'; unfold T_Atomic in *; lia]).
+        apply atomic_tail. exact Hh.
+      - destruct (n_t node =? T_PosLook) eqn:Ep.
+        + rewrite (tr_poslook sid node k) by (first [exact Ek | unfold T_PosLook in *; lia]).
+          rewrite (tr_poslook sid (set_kids node [k']) k') by (first [exact Hk2 | rewrite Ht'; unfold T_PosLook in *; lia]).
+          rewrite Ho'. apply poslook_tail. exact Hh.
+        + rewrite (tr_neglook sid node k) by (first [exact Ek | unfold T_NegLook, T_Atomic, T_PosLook in *; lia]).
+          rewrite (tr_neglook sid (set_kids node [k']) k') by (first [exact Hk2 | rewrite Ht'; unfold T_NegLook, T_Atomic, T_PosLook in *; lia]).
+          rewrite Ho'. apply neglook_tail. exact Hh. }
+    assert (Hnt : ~ (n_t node = T_Atomic \/ n_t node = T_PosLook \/ n_t node = T_NegLook)) by (unfold T_Atomic, T_PosLook, T_NegLook in *; lia).
+    assert (Hspec : forall nd', node_ok nd' -> rw_hrefines e (tr node) (tr nd') -> ee_spec node nd').
+    { intros nd' H1 H2. split; [exact H1|]. split; [exact H2|]. intros Hc. contradiction. }
+    destruct ((n_t node =? T_Capture) || (n_t node =? T_Concatenate)) eqn:Ecc.
+    { destruct ((n_t node =? T_Capture) && negb (n_n node =? -1)) eqn:Ebal.
+      { injection H as <-. apply Hspec; [exact Hok | apply rw_hrefines_refl]. }
+      destruct (rev (n_kids node)) as [|ec rpre] eqn:Erev; [discriminate|]. apply rev_cons_inv in Erev.
+      assert (Hec : node_ok ec) by (apply (node_ok_kid sets node); [exact Hok | rewrite Erev; apply in_or_app; right; left; reflexivity]).
+      assert (Hpre : Forall node_ok (rev rpre)).
+      { rewrite Forall_forall. intros k Hk. apply (node_ok_kid sets node); [exact Hok | rewrite Erev; apply in_or_app; left; exact Hk]. }
+      (* whatever replaces the last child with the same first result *)
+      assert (Hlast : forall ec', node_ok ec' -> rw_hrefines e (tr ec) (tr ec') -> ee_spec node (set_kids node (rev (ec' :: rpre)))).
+      { intros ec' Hec' Hh. cbn [rev].
+        destruct (set_kids_fields node (rev rpre ++ [ec'])) as (Ht' & Ho' & _ & Hm' & Hn' & _ & _ & Hk2).
+        apply Hspec.
+        - apply node_ok_set_kids; [exact Hok | rewrite Erev, !app_length; reflexivity|].
+          apply Forall_app. split; [exact Hpre | constructor; [exact Hec'|constructor]].
+        - destruct (n_t node =? T_Concatenate) eqn:Econ.
+          + rewrite (tr_concat sid node) by (unfold T_Concatenate in *; lia).
+            rewrite (tr_concat sid (set_kids node _)) by (rewrite Ht'; unfold T_Concatenate in *; lia).
+            rewrite Ho', Hk2, Erev, !map_app. cbn [map]. apply concat_last_tail. exact Hh.
+          + assert (Ecap : n_t node = T_Capture) by lia.
+            destruct (kids_one node ltac:(unfold T_Capture in Ecap; lia) (proj1 Hok)) as [k0 Hk0]. rewrite Hk0 in Erev.
+            assert (Hr : rpre = []).
+            { destruct rpre as [|r0 rpre]; [reflexivity|]. exfalso. apply (f_equal (@length _)) in Erev.
+              cbn [rev] in Erev. rewrite !app_length in Erev. cbn in Erev. lia. }
+            subst rpre. cbn [rev app] in *. injection Erev as ->.
+            rewrite (tr_capture sid node ec Ecap Hk0).
+            rewrite (tr_capture sid (set_kids node [ec']) ec') by (first [exact Hk2 | rewrite Ht'; exact Ecap]).
+            rewrite Ho', Hm', Hn'. replace (n_n node) with (-1) by lia. apply capture_tail. exact Hh. }
+      destruct (((n_t ec =? T_Alternate) || (n_t ec =? T_BackRefCond) || (n_t ec =? T_ExprCond) || (n_t ec =? T_Loop) || (n_t ec =? T_Lazyloop)) && negb par) eqn:Ewrap.
+      - (* wrap the last child in an Atomic node *)
+        destruct (fo_reduce cat_in isw isew f g strict true 0 T_Atomic ec) as [c1| | |] eqn:Ec1; cbn [bind] in H; try discriminate.
+        destruct (IHR _ _ _ _ Ec1 Hec) as [Hc1 Hr1].
+        set (atom := RN T_Atomic (n_o ec) 0 0 0 [] None [c1]) in *.
+        assert (Hatom : node_ok atom).
+        { destruct Hc1 as [Hw1 Hs1]. split; [|cbn; tauto]. rewrite fo_wf_unfold. cbn. rewrite Hw1.
+          destruct (wf_flags ec (proj1 Hec)) as (_ & _ & _ & _ & _ & Hci & _).
+          rewrite Hci by (unfold T_Alternate, T_BackRefCond, T_ExprCond, T_Loop, T_Lazyloop in *; lia). reflexivity. }
+        destruct (fo_reduce cat_in isw isew f g strict true 0 (n_t node) atom) as [a1| | |] eqn:Ea1; cbn [bind] in H; try discriminate.
+        destruct (IHR _ _ _ _ Ea1 Hatom) as [Ha1 Hr2].
+        assert (Hchain : rw_hrefines e (tr ec) (tr a1)).
+        { eapply rw_hrefines_trans; [apply rw_refines_hrefines; exact Hr1|].
+          eapply rw_hrefines_trans; [apply hrefines_sym; apply (proj1 (atomic_heq e (tr c1)))|].
+          change (NAtomic (tr c1)) with (tr atom). apply rw_refines_hrefines. exact Hr2. }
+        destruct (n_t a1 =? T_Atomic) eqn:Eat.
+        + destruct (kids_one a1 ltac:(unfold T_Atomic in *; lia) (proj1 Ha1)) as [c Ekc]. rewrite Ekc in H.
+          destruct (fo_ee cat_in isw isew f g strict true true c) as [c'| | |] eqn:Ecc'; cbn [bind] in H; try discriminate.
+          injection H as <-.
+          assert (Hc : node_ok c) by (apply (node_ok_kid sets a1); [exact Ha1 | rewrite Ekc; left; reflexivity]).
+          destruct (IHE _ _ _ Ecc' Hc) as (Hc' & Hh & _).
+          destruct (set_kids_fields a1 [c']) as (Ht2 & _ & _ & _ & _ & _ & _ & Hk3).
+          apply Hlast.
+          * apply node_ok_set_kids; [exact Ha1 | rewrite Ekc; reflexivity | constructor; [exact Hc'|constructor]].
+          * eapply rw_hrefines_trans; [exact Hchain|].
+            rewrite (tr_atomic sid a1 c) by (first [exact Ekc | unfold T_Atomic in *; lia]).
+            rewrite (tr_atomic sid (set_kids a1 [c']) c') by (first [exact Hk3 | rewrite Ht2; unfold T_Atomic in *; lia]).
+            apply atomic_tail. exact Hh.
+        + injection H as <-. apply Hlast; [exact Ha1 | exact Hchain].
+      - destruct (fo_ee cat_in isw isew f g strict true false ec) as [ec'| | |] eqn:Eec; cbn [bind] in H; try discriminate.
+        injection H as <-. destruct (IHE _ _ _ Eec Hec) as (Hec' & Hh & _). apply Hlast; assumption. }
+    destruct ((n_t node =? T_Alternate) || (n_t node =? T_BackRefCond) || (n_t node =? T_ExprCond)) eqn:Ealt.
+    { destruct (n_kids node) as [|k0 ks] eqn:Ek; [discriminate|].
+      destruct (fo_map_res (fo_ee cat_in isw isew f g strict true false) ks) as [ks'| | |] eqn:Eks; cbn [bind] in H; try discriminate.
+      apply fo_map_res_Forall2 in Eks.
+      assert (Hk0 : node_ok k0) by (apply (node_ok_kid sets node); [exact Hok | rewrite Ek; left; reflexivity]).
+      assert (Hks : Forall node_ok ks).
+      { rewrite Forall_forall. intros r Hr. apply (node_ok_kid sets node); [exact Hok | rewrite Ek; right; exact Hr]. }
+      assert (Hall : Forall2 (fun k k' => node_ok k' /\ rw_hrefines e (tr k) (tr k')) ks ks').
+      { clear -Eks Hks IHE. induction Eks as [|k k' l l' Hk _ IH]; [constructor|].
+        inversion Hks as [|? ? Hka Hkb]; subst. destruct (IHE _ _ _ Hk Hka) as (HA & HB & _). constructor; [split; assumption | apply IH; assumption]. }
+      assert (Hks'ok : Forall node_ok ks') by (clear -Hall; induction Hall as [|? ? ? ? [H _] _ IH]; constructor; assumption).
+      assert (Hks'h : Forall2 (fun k k' => rw_hrefines e (tr k) (tr k')) ks ks') by (clear -Hall; induction Hall as [|? ? ? ? [_ H] _ IH]; constructor; assumption).
+      assert (Hlen : length ks' = length ks) by (symmetry; eapply fo_Forall2_length; exact Eks).
+      assert (Hk0' : exists k0', (if n_t node =? T_ExprCond then Ok k0 else fo_ee cat_in isw isew f g strict true false k0) = Ok k0' /\
+                                 node_ok k0' /\ rw_hrefines e (tr k0) (tr k0')).
+      { destruct (n_t node =? T_ExprCond).
+        - exists k0. split; [reflexivity|]. split; [exact Hk0 | apply rw_hrefines_refl].
+        - destruct (fo_ee cat_in isw isew f g strict true false k0) as [k0'| | |] eqn:E0; cbn [bind] in H; try discriminate.
+          exists k0'. split; [reflexivity|]. destruct (IHE _ _ _ E0 Hk0) as (H1 & H2 & _). split; assumption. }
+      destruct Hk0' as (k0' & E0 & Hk0'ok & Hk0'h). rewrite E0 in H. cbn [bind] in H. injection H as <-.
+      destruct (set_kids_fields node (k0' :: ks')) as (Ht' & Ho' & _ & Hm' & _ & _ & _ & Hk2).
+      apply Hspec.
+      - apply node_ok_set_kids; [exact Hok | rewrite Ek; cbn [length]; lia | constructor; assumption].
+      - destruct (n_t node =? T_Alternate) eqn:Ea.
+        + rewrite (tr_alt sid node) by (unfold T_Alternate in *; lia).
+          rewrite (tr_alt sid (set_kids node _)) by (rewrite Ht'; unfold T_Alternate in *; lia).
+          rewrite Ho', Hk2, Ek. apply (Forall2_hrefines_alt (n_o node) (k0 :: ks) (k0' :: ks')). constructor; assumption.
+        + destruct (n_t node =? T_BackRefCond) eqn:Eb.
+          * destruct (kids_two node ltac:(unfold T_BackRefCond in *; lia) (proj1 Hok)) as (y & nn & Ek2). rewrite Ek in Ek2. injection Ek2 as -> ->.
+            inversion Hks'h as [|? nn' ? l1 Hnn Hr]; subst. inversion Hr; subst.
+            rewrite (tr_backref_cond sid node y nn) by (first [exact Ek | unfold T_BackRefCond in *; lia]).
+            rewrite (tr_backref_cond sid (set_kids node [k0'; nn']) k0' nn') by (first [exact Hk2 | rewrite Ht'; unfold T_BackRefCond in *; lia]).
+            rewrite Ho', Hm'. apply backref_cond_tail; [exact Hk0'h | exact Hnn].
+          * destruct (kids_three node ltac:(unfold T_ExprCond, T_Alternate, T_BackRefCond in *; lia) (proj1 Hok)) as (c0 & y & nn & Ek3). rewrite Ek in Ek3. injection Ek3 as -> ->.
+            inversion Hks'h as [|? y' ? l1 Hy Hr]; subst. inversion Hr as [|? nn' ? l2 Hnn Hr2]; subst. inversion Hr2; subst.
+            replace (n_t node =? T_ExprCond) with true in E0 by (unfold T_ExprCond, T_Alternate, T_BackRefCond in *; lia). injection E0 as <-.
+            rewrite (tr_expr_cond sid node c0 y nn) by (first [exact Ek | unfold T_ExprCond, T_Alternate, T_BackRefCond in *; lia]).
+            rewrite (tr_expr_cond sid (set_kids node [c0; y'; nn']) c0 y' nn') by (first [exact Hk2 | rewrite Ht'; unfold T_ExprCond, T_Alternate, T_BackRefCond in *; lia]).
+            rewrite Ho'. apply expr_cond_tail; [apply rw_hrefines_refl | exact Hy | exact Hnn]. }
+    (* loops *)
+    assert (Hloop : forall nd, node_ok nd -> (n_t nd = T_Loop \/ n_t nd = T_Lazyloop) ->
+              forall nd', (if n_n nd =? 1
+                           then match n_kids nd with [] => Crash 53 | k :: ks => do k' <- fo_ee cat_in isw isew f g strict true false k ; Ok (set_kids nd (k' :: ks)) end
+                           else do r <- fo_loop_last strict nd (fun first lastc =>
+                                      do b <- fo_cbma cat_in isw isew f strict lastc first [] false false false ;
+                                      if b then (do l' <- fo_ee cat_in isw isew f g strict true false lastc ; Ok (Some l')) else Ok None) ;
+                                match r with Some nd' => Ok nd' | None => Ok nd end) = Ok nd' ->
+              node_ok nd' /\ rw_hrefines e (tr nd) (tr nd')).
+    { intros nd Hnd Htl nd' Hr.
+      destruct (n_n nd =? 1) eqn:En1.
+      - destruct (kids_one nd ltac:(unfold T_Loop, T_Lazyloop in *; lia) (proj1 Hnd)) as [k Ek]. rewrite Ek in Hr.
+        destruct (fo_ee cat_in isw isew f g strict true false k) as [k'| | |] eqn:Eee; cbn [bind] in Hr; try discriminate.
+        injection Hr as <-.
+        assert (Hk : node_ok k) by (apply (node_ok_kid sets nd); [exact Hnd | rewrite Ek; left; reflexivity]).
+        destruct (IHE _ _ _ Eee Hk) as (Hk' & Hh & _).
+        destruct (set_kids_fields nd [k']) as (Ht' & Ho' & _ & Hm' & Hn' & _ & _ & Hk2).
+        split; [apply node_ok_set_kids; [exact Hnd | rewrite Ek; reflexivity | constructor; [exact Hk'|constructor]]|].
+        destruct (wf_flags nd (proj1 Hnd)) as (_ & _ & _ & Hb & _).
+        assert (Hm01 : n_m nd = 0 \/ n_m nd = 1) by (specialize (Hb ltac:(unfold T_Loop, T_Lazyloop in *; lia)); lia).
+        destruct Htl as [Etl|Etl].
+        + rewrite (tr_loop sid nd k Etl Ek), (tr_loop sid (set_kids nd [k']) k') by (first [exact Hk2 | rewrite Ht'; exact Etl]).
+          rewrite Ho', Hm', Hn'. replace (n_n nd) with 1 by lia. apply loop_one_tail; assumption.
+        + rewrite (tr_lazyloop sid nd k Etl Ek), (tr_lazyloop sid (set_kids nd [k']) k') by (first [exact Hk2 | rewrite Ht'; exact Etl]).
+          rewrite Ho', Hm', Hn'. replace (n_n nd) with 1 by lia. apply loop_one_tail; assumption.
+      - rewrite fo_loop_last_none in Hr. cbn [bind] in Hr. injection Hr as <-. split; [exact Hnd | apply rw_hrefines_refl]. }
+    destruct (n_t node =? T_Lazyloop) eqn:Elz.
+    { assert (Etl : n_t node = T_Lazyloop) by lia.
+      destruct (kids_one node ltac:(unfold T_Lazyloop in *; lia) (proj1 Hok)) as [k Ek].
+      destruct (wf_flags node (proj1 Hok)) as (_ & _ & _ & Hb & _).
+      specialize (Hb ltac:(unfold T_Lazyloop in *; lia)).
+      pose (nd := set_mn node (n_m node) (n_m node)).
+      destruct (set_mn_fields node (n_m node) (n_m node)) as (Ht1 & Ho1 & Hm1 & Hn1 & Hk1 & Hst1 & Hstr1).
+      assert (Hnd : node_ok nd).
+      { destruct Hok as [Hwf Hs]. unfold nd. destruct node as [t o ch m n str st kids]. cbn [set_mn n_m] in *. split; [|exact Hs].
+        rewrite fo_wf_unfold in Hwf |- *. cbn [n_t n_kids n_set n_m n_n n_str n_o] in *.
+        replace t with 27 in * by (unfold T_Lazyloop in *; lia). cbn in Hwf |- *.
+        repeat (apply andb_prop in Hwf; destruct Hwf as [Hwf ?]).
+        repeat (apply andb_true_intro; split); try assumption; lia. }
+      destruct (Hloop nd Hnd ltac:(right; unfold nd; rewrite Ht1; exact Etl) node' H) as [Hnd' Hh].
+      apply Hspec; [exact Hnd'|]. eapply rw_hrefines_trans; [|exact Hh].
+      rewrite (tr_lazyloop sid node k Etl Ek). rewrite (tr_lazyloop sid nd k) by (unfold nd; first [rewrite Hk1; exact Ek | rewrite Ht1; exact Etl]).
+      unfold nd. rewrite Ho1, Hm1, Hn1. apply lazyloop_min_tail; lia. }
+    destruct (n_t node =? T_Loop) eqn:Elp.
+    { destruct (Hloop node Hok ltac:(left; lia) node' H) as [Hnd' Hh]. apply Hspec; assumption. }
+    injection H as <-. apply Hspec; [exact Hok | apply rw_hrefines_refl]. }
+  split; [exact HE|].
+  (* the gated reduce *)
+  intros mode ptype x x' H Hok.
+  destruct (node_ok_clr x Hok) as [Hok1 Hr1].
+  destruct x as [t o ch m n str st kids] eqn:Ex. rewrite <- Ex in Hok, Hok1, Hr1 |- *.
+  rewrite fo_reduce_S in H. cbv zeta in H.
+  assert (Ex1 : clr x = RN t (if t =? T_Ref then o else clear_I o) ch m n str st kids) by (rewrite Ex; reflexivity).
+  rewrite <- Ex1 in H.
+  assert (Etx : n_t (clr x) = t) by (rewrite Ex; reflexivity).
+  assert (Etx0 : n_t x = t) by (rewrite Ex; reflexivity).
+  set (x1 := clr x) in *.
+  assert (Hlift : forall y, red_spec x1 y -> red_spec x y).
+  { intros y [H1 H2]. split; [exact H1 | eapply rw_refines_trans; [exact Hr1 | exact H2]]. }
+  apply Hlift. clear Hlift.
+  destruct (t =? T_Alternate) eqn:Ea.
+  { injection H as <-. split; [exact Hok1 | apply rw_refines_refl]. }
+  destruct (t =? T_Atomic) eqn:Eat.
+  { cbv zeta in H.
+    destruct (innermost_spec x1 ltac:(lia) Hok1) as (Hta & Hoka & Hra & child & Ekc & Hnc). cbv zeta in Hta, Hoka, Hra, Ekc.
+    rewrite Ekc in H.
+    assert (Hchild : node_ok child) by (apply (node_ok_kid sets (fo_innermost_atomic x1)); [exact Hoka | rewrite Ekc; left; reflexivity]).
+    assert (Hlift : forall y, node_ok y -> rw_refines e (NAtomic (tr child)) (tr y) -> red_spec x1 y).
+    { intros y H1 H2. split; [exact H1|]. eapply rw_refines_trans; [exact Hra|].
+      rewrite (tr_atomic sid (fo_innermost_atomic x1) child Hta Ekc). exact H2. }
+    assert (Hdflt : forall c, node_ok c -> rw_hrefines e (tr child) (tr c) ->
+              forall y, (do c' <- fo_ee cat_in isw isew f g strict true true c ; Ok (set_kids (fo_innermost_atomic x1) [c'])) = Ok y -> red_spec x1 y).
+    { intros c Hc Hhc y Hy.
+      destruct (fo_ee cat_in isw isew f g strict true true c) as [c'| | |] eqn:Ec; cbn [bind] in Hy; try discriminate.
+      injection Hy as <-. destruct (IHE _ _ _ Ec Hc) as (Hc' & Hh & _).
+      destruct (set_kids_fields (fo_innermost_atomic x1) [c']) as (Ht2 & _ & _ & _ & _ & _ & _ & Hk3).
+      apply Hlift.
+      - apply node_ok_set_kids; [exact Hoka | rewrite Ekc; reflexivity | constructor; [exact Hc'|constructor]].
+      - rewrite (tr_atomic sid (set_kids (fo_innermost_atomic x1) [c']) c') by (first [exact Hk3 | rewrite Ht2; exact Hta]).
+        apply atomic_observes_head. eapply rw_hrefines_trans; [exact Hhc | exact Hh]. }
+    destruct ((n_t child =? T_Empty) || (n_t child =? T_Nothing)) eqn:Een.
+    { injection H as <-. apply Hlift; [exact Hchild|]. apply atomic_single_refines.
+      destruct (n_t child =? T_Empty) eqn:Ee; [rewrite (tr_empty child) by lia; apply single_empty | rewrite (tr_nothing child) by lia; apply single_nothing]. }
+    destruct (is_atomicloop_family (n_t child)) eqn:Eal.
+    { injection H as <-. apply Hlift; [exact Hchild|]. apply atomic_single_refines. apply tr_atomicloop_single. exact Eal. }
+    destruct (fo_is_charloop (n_t child) || fo_is_charlazy (n_t child)) eqn:Ecl.
+    { injection H as <-. apply Hlift; [apply node_ok_mla; assumption | apply atomic_mla_refines; assumption]. }
+    apply (Hdflt child Hchild (rw_hrefines_refl e _) _ H). }
+  destruct ((t =? T_PosLook) || (t =? T_NegLook)) eqn:Elk.
+  { destruct (fo_ee cat_in isw isew f g strict true false x1) as [x2| | |] eqn:Ex2; cbn [bind] in H; try discriminate.
+    destruct (IHE _ _ _ Ex2 Hok1) as (Hok2 & Hh & Hty).
+    destruct (Hty ltac:(unfold T_PosLook, T_NegLook in *; rewrite Etx; lia)) as (Ht2 & Ho2 & Hl2).
+    destruct (kids_one x1 ltac:(unfold T_PosLook, T_NegLook in *; lia) (proj1 Hok1)) as [k1 Ek1].
+    destruct (kids_one x2 ltac:(unfold T_PosLook, T_NegLook in *; lia) (proj1 Hok2)) as [k Ek]. rewrite Ek in H.
+    assert (Hk : node_ok k) by (apply (node_ok_kid sets x2); [exact Hok2 | rewrite Ek; left; reflexivity]).
+    assert (Hsingle : rw_refines e (tr x1) (tr x2)).
+    { destruct (t =? T_PosLook) eqn:Ep.
+      - rewrite (tr_poslook sid x1 k1) in * by (first [exact Ek1 | unfold T_PosLook in *; lia]).
+        rewrite (tr_poslook sid x2 k) in * by (first [exact Ek | unfold T_PosLook in *; lia]).
+        apply hrefines_single; [apply single_poslook | apply single_poslook | exact Hh].
+      - rewrite (tr_neglook sid x1 k1) in * by (first [exact Ek1 | unfold T_PosLook, T_NegLook in *; lia]).
+        rewrite (tr_neglook sid x2 k) in * by (first [exact Ek | unfold T_PosLook, T_NegLook in *; lia]).
+        apply hrefines_single; [apply single_neglook | apply single_neglook | exact Hh]. }
+    destruct (n_t k =? T_Empty) eqn:Eke.
+    - injection H as <-.
+      assert (Hci : useI (if t =? T_Ref then o else clear_I o) = false).
+      { destruct (wf_flags x1 (proj1 Hok1)) as (_ & _ & _ & _ & _ & Hci & _).
+        replace (if t =? T_Ref then o else clear_I o) with (n_o x1) by (first [rewrite Ex1; reflexivity | unfold x1; rewrite Ex1; reflexivity]).
+        apply Hci; unfold T_PosLook, T_NegLook in *; lia. }
+      split.
+      + split; [|cbn; destruct Hok as [_ Hs]; rewrite Ex in Hs; cbn in Hs; tauto].
+        rewrite fo_wf_unfold. cbn [n_t n_kids n_set n_m n_n n_str n_o length forallb].
+        destruct (t =? T_PosLook); cbn; rewrite Hci; reflexivity.
+      + eapply rw_refines_trans; [exact Hsingle|].
+        destruct (t =? T_PosLook) eqn:Ep.
+        * rewrite (tr_poslook sid x2 k) by (first [exact Ek | unfold T_PosLook in *; lia]). rewrite (tr_empty k) by lia.
+          change (tr (RN T_Empty (if t =? T_Ref then o else clear_I o) ch m n str st [])) with NEmpty.
+          apply refines_den. intros s. rewrite fd_den_poslook, !fd_den_empty. cbn. rewrite with_pos_same. reflexivity.
+        * rewrite (tr_neglook sid x2 k) by (first [exact Ek | unfold T_PosLook, T_NegLook in *; lia]). rewrite (tr_empty k) by lia.
+          change (tr (RN T_Nothing (if t =? T_Ref then o else clear_I o) ch m n str st [])) with NNothing.
+          apply refines_den. intros s. rewrite fd_den_neglook, fd_den_empty, fd_den_nothing. reflexivity.
+    - injection H as <-. split; [exact Hok2 | exact Hsingle]. }
+  destruct (t =? T_ExprCond) eqn:Eec.
+  { destruct (kids_three x1 ltac:(unfold T_ExprCond in *; lia) (proj1 Hok1)) as (c0 & y & nn & Ek).
+    assert (Hc0 : node_ok c0) by (apply (node_ok_kid sets x1); [exact Hok1 | rewrite Ek; left; reflexivity]).
+    assert (Hcond : forall c', node_ok c' -> rw_hrefines e (tr c0) (tr c') -> red_spec x1 (set_kids x1 [c'; y; nn])).
+    { intros c' Hc' Hh. destruct (set_kids_fields x1 [c'; y; nn]) as (Ht' & Ho' & _ & _ & _ & _ & _ & Hk2). split.
+      - apply node_ok_set_kids; [exact Hok1 | rewrite Ek; reflexivity|].
+        constructor; [exact Hc'|]. constructor; [apply (node_ok_kid sets x1); [exact Hok1 | rewrite Ek; right; left; reflexivity]|].
+        constructor; [apply (node_ok_kid sets x1); [exact Hok1 | rewrite Ek; right; right; left; reflexivity]|constructor].
+      - rewrite (tr_expr_cond sid x1 c0 y nn) by (first [exact Ek | unfold T_ExprCond in *; lia]).
+        rewrite (tr_expr_cond sid (set_kids x1 [c'; y; nn]) c' y nn) by (first [exact Hk2 | rewrite Ht'; unfold T_ExprCond in *; lia]).
+        rewrite Ho'. apply exprcond_observes_head. exact Hh. }
+    assert (Hsame : forall l, set_kids x1 l = RN t (if t =? T_Ref then o else clear_I o) ch m n str st l) by (intros l; unfold x1; rewrite Ex; reflexivity).
+    assert (Hkids1 : n_kids x1 = kids) by (unfold x1; rewrite Ex; reflexivity).
+    destruct (mode =? 0) eqn:Em0.
+    - cbn [andb] in H. rewrite Hkids1 in Ek. rewrite Ek in H. cbn [n_kids] in H.
+      destruct (fo_ee cat_in isw isew f g strict true false c0) as [c'| | |] eqn:Ec; cbn [bind] in H; try discriminate.
+      injection H as <-. destruct (IHE _ _ _ Ec Hc0) as (Hc' & Hh & _).
+      apply Hcond; assumption.
+    - rewrite Hkids1 in Ek. rewrite Ek in H.
+      destruct (mode =? 2) eqn:Em2.
+      + destruct (fo_ee cat_in isw isew f g strict true false c0) as [c1| | |] eqn:Ec1; cbn [bind] in H; try discriminate.
+        destruct (IHE _ _ _ Ec1 Hc0) as (Hc1 & Hh1 & _).
+        destruct (n_t c1 =? T_Empty) eqn:Ee.
+        * injection H as <-. rewrite <- Hsame.
+          apply Hcond.
+          -- split; [|cbn; tauto]. rewrite fo_wf_unfold. cbn.
+             destruct (wf_flags x1 (proj1 Hok1)) as (_ & _ & _ & _ & _ & Hci & _). unfold x1 in Hci. rewrite Ex in Hci. cbn in Hci.
+             rewrite Hci by (unfold T_ExprCond in *; lia). reflexivity.
+          -- change (tr (mk_node T_Empty (if t =? T_Ref then o else clear_I o))) with NEmpty. rewrite (tr_empty c1) in Hh1 by lia. exact Hh1.
+        * destruct (fo_reduce cat_in isw isew f g strict true 0 T_ExprCond c1) as [c2| | |] eqn:Ec2; cbn [bind] in H; try discriminate.
+          destruct (IHR _ _ _ _ Ec2 Hc1) as [Hc2 Hr2].
+          destruct (fo_ee cat_in isw isew f g strict true false c2) as [c3| | |] eqn:Ec3; cbn [bind] in H; try discriminate.
+          destruct (IHE _ _ _ Ec3 Hc2) as (Hc3 & Hh3 & _). injection H as <-. rewrite <- Hsame.
+          apply Hcond; [exact Hc3|].
+          eapply rw_hrefines_trans; [exact Hh1|]. eapply rw_hrefines_trans; [apply rw_refines_hrefines; exact Hr2 | exact Hh3].
+      + destruct (fo_ee cat_in isw isew f g strict true false c0) as [c'| | |] eqn:Ec; cbn [bind] in H; try discriminate.
+        injection H as <-. destruct (IHE _ _ _ Ec Hc0) as (Hc' & Hh & _). rewrite <- Hsame. apply Hcond; assumption. }
+  injection H as <-. split; [exact Hok1 | apply rw_refines_refl].
+Qed.
+
+End EE.
 
 End End.
